@@ -42,21 +42,21 @@ var c12Routes = []c12Route{
 
 type c12Scenario struct {
 	// configuration
-	grFams  []bgp.Family // families g lists in its GR capability
-	gr      bool
-	nbit    bool
-	llgr    bool
+	grFams []bgp.Family // families g lists in its GR capability
+	gr     bool
+	nbit   bool
+	llgr   bool
 	// model
-	up       bool
-	deleted  bool
-	admDown  bool
-	status   map[string]string // fresh stale llgr absent
-	restart  time.Duration
-	llgrLeft time.Duration
-	eor      map[bgp.Family]bool
+	up         bool
+	deleted    bool
+	admDown    bool
+	status     map[string]string // fresh stale llgr absent
+	restart    time.Duration
+	llgrLeft   time.Duration
+	eor        map[bgp.Family]bool
 	restarting bool // the peer is in its restart window / resynchronising
-	arg      string
-	tag      string // circumstance that is part of a violation's signature
+	arg        string
+	tag        string // circumstance that is part of a violation's signature
 }
 
 func init() {
